@@ -245,7 +245,37 @@ def bounded(tier, seed, procs):
         if r != ("val", K.Flops(e)):
             bn.fail(Failure("counts", f"what=flops-reused-counter expr={e!r}", dict(kind="flops-hist", expr=trees.src(e)), expected=K.Flops(e), actual=outcome.describe(r),
                             functions=["FlopCounterBase"]))
-    return [bd, br, bn]
+    # user collectors built on Collector / CachedMapper + Collector and rewritten by the mapper optimizer (every option set that is legitimate for a mapper without
+    # extra arguments): the variables of the expression, as the specification with all composite kinds off
+    from contracts import fixtures_opt as fx
+    from pymbolic.mapper.optimize import optimize_mapper
+    import warnings as _w
+    bo = BoundedRun("optimized-collectors", rule="optimize_mapper under its 32 option sets applied to a user variable collector (plain and memoizing): on the domain, the names of "
+                    "Deps(e) with all composite kinds off (function names of calls included, as the collector visits them)", bound="2 collectors x 32 option sets x 60 expressions",
+                    functions=["Collector.combine", "CombineMapper.map_*", "optimize_mapper"])
+    sample = [e for e in trees.thin(dom, 60, seed=9) if isinstance(e, p.Expression) and not _unhashable(e)]
+    for cls in (fx.PlainVarCollector, fx.CachedPlainVarCollector):
+        for bits in itertools.product((False, True), repeat=5):
+            o = dict(zip(["drop_args", "drop_kwargs", "inline_rec", "inline_cache", "inline_get_cache_key"], bits))
+            if (o["inline_cache"] or o["inline_get_cache_key"]) and cls is fx.PlainVarCollector:
+                continue
+            with _w.catch_warnings():
+                _w.simplefilter("ignore")
+                made = outcome.run(lambda: optimize_mapper(**o)(cls))
+            if made[0] != "val":
+                bo.case(("make", cls.__name__, bits))
+                bo.fail(Failure("optimized-collectors", f"what=build subject={cls.__name__} options={o}", dict(kind="optcoll-build", subject=cls.__name__, options=o), expected="a class", actual=outcome.describe(made)[:150],
+                                functions=["optimize_mapper"]))
+                continue
+            for e in sample:
+                want = outcome.run(lambda: cls()(e))
+                got = outcome.run(lambda: made[1]()(e))
+                bo.case((cls.__name__, bits, repr(e)), nontrivial=any(bits))
+                if got != want:
+                    bo.fail(Failure("optimized-collectors", f"what=differs subject={cls.__name__} options={o} expr={e!r}"[:400], dict(kind="optcoll", subject=cls.__name__, options=o, expr=repr(e)),
+                                    expected=outcome.describe(want)[:100], actual=outcome.describe(got)[:100], functions=["Collector.combine", "optimize_mapper"]))
+                    break
+    return [bd, br, bn, bo]
 
 
 def _flop_fragment(e):
